@@ -774,12 +774,13 @@ func (g *vGenSess) prflxSelSupersede() {
 	pump(6+r.intn(4), true) // connect over x1 only; x2 stays unknown to B
 	v := 1 + r.intn(3)
 	g.op("renom A %d 0 %d", x2, v)
-	// hand B the renomination (and whatever else is in flight that does not come from x2)
-	for k := 0; k < len(g.fl); {
-		if strings.HasPrefix(g.fl[k], fromX2) && !strings.Contains(g.fl[k], "nom="+fmt.Sprint(v)) {
-			g.flop("drop", k)
+	// hand B the renomination: what was in flight before it is delivered (dropped if it left x2), then the
+	// renomination itself; whatever it provokes stays in flight for the variant below
+	for n0 := len(g.fl); n0 > 0; n0-- {
+		if strings.HasPrefix(g.fl[0], fromX2) && !strings.Contains(g.fl[0], "nom="+fmt.Sprint(v)) {
+			g.flop("drop", 0)
 		} else {
-			g.flop("deliver", k)
+			g.flop("deliver", 0)
 		}
 	}
 	supersede := func() { g.op("addremote B 1 0 %d %d -%s", x2, p2, g.fm()) }
